@@ -150,13 +150,63 @@ class ClassInfo:
         return "<Class %s>" % self.fq
 
 
+_NEG_OPS = {ast.NotEq: ast.Eq, ast.IsNot: ast.Is, ast.NotIn: ast.In}
+
+
+def _positive(test):
+    """(test', flipped): the test with one outer negation removed (`not X`, `a != b`, `a is not b`,
+    `a not in b`)."""
+    if isinstance(test, ast.UnaryOp) and isinstance(test.op, ast.Not):
+        return test.operand, True
+    if isinstance(test, ast.Compare) and len(test.ops) == 1 and type(test.ops[0]) in _NEG_OPS:
+        new = ast.Compare(left=test.left, ops=[_NEG_OPS[type(test.ops[0])]()], comparators=test.comparators)
+        return ast.copy_location(new, test), True
+    return test, False
+
+
+class _LoadNormaliser(ast.NodeTransformer):
+    """Behaviour-preserving normal form applied to every module when it is loaded, so that no rule depends on
+    which of several equivalent spellings the source uses:
+      * `pass` statements are dropped from bodies that have another statement;
+      * a two-armed `if` / conditional expression (not an `elif` chain) has a positive test: `if not c: A else: B`,
+        `if a != b`, `if a is not b`, `if a not in b` become the swapped form with the positive test.
+    Positions are those of the original nodes."""
+
+    def _body(self, stmts):
+        keep = [s for s in stmts if not isinstance(s, ast.Pass)]
+        return keep if keep else stmts[:1]
+
+    def generic_visit(self, node):
+        super().generic_visit(node)
+        for fld in ("body", "orelse", "finalbody"):
+            v = getattr(node, fld, None)
+            if isinstance(v, list) and v and isinstance(v[0], ast.stmt):
+                setattr(node, fld, self._body(v))
+        return node
+
+    def visit_If(self, node):
+        self.generic_visit(node)
+        if node.orelse and not (len(node.orelse) == 1 and isinstance(node.orelse[0], ast.If)):
+            t, flipped = _positive(node.test)
+            if flipped:
+                node.test, node.body, node.orelse = t, node.orelse, node.body
+        return node
+
+    def visit_IfExp(self, node):
+        self.generic_visit(node)
+        t, flipped = _positive(node.test)
+        if flipped:
+            node.test, node.body, node.orelse = t, node.orelse, node.body
+        return node
+
+
 class Module:
     def __init__(self, path, relpath, modname, source):
         self.path = path
         self.relpath = relpath
         self.modname = modname
         self.source = source
-        self.tree = ast.parse(source, filename=path)
+        self.tree = _LoadNormaliser().visit(ast.parse(source, filename=path))
         self.functions: Dict[str, FuncInfo] = {}
         self.classes: Dict[str, ClassInfo] = {}
         self.imports: Dict[str, Tuple[str, Optional[str]]] = {}  # local -> (module, name|None)
@@ -279,6 +329,30 @@ def enclosing_function(node) -> Optional[ast.AST]:
         if isinstance(a, (ast.FunctionDef, ast.AsyncFunctionDef, ast.Lambda)):
             return a
     return None
+
+
+def path_conditions(node) -> List[Tuple[str, bool]]:
+    """(positive test text, truth value) for every enclosing `if` / conditional expression of `node`:
+    `x` inside the else-arm of `if M is None` and inside the body of `if M is not None` both give
+    ("M is None", False)."""
+    out = []
+    child = node
+    for a in ancestors(node):
+        if isinstance(a, (ast.If, ast.IfExp)):
+            body = a.body if isinstance(a.body, list) else [a.body]
+            orelse = a.orelse if isinstance(a.orelse, list) else [a.orelse]
+            arm = True if any(child is b for b in body) else (False if any(child is b for b in orelse) else None)
+            if arm is not None:
+                t, flipped = _positive(a.test)
+                out.append((ast.unparse(t), arm != flipped))
+        child = a
+    return out
+
+
+def under(node, test: str, value: bool = True) -> bool:
+    """is `node` on the arm where `test` (positive or negative spelling) has truth `value`?"""
+    t, flipped = _positive(ast.parse(test, mode="eval").body)
+    return (ast.unparse(t), value != flipped) in path_conditions(node)
 
 
 def enclosing_stmt(node) -> ast.AST:
